@@ -66,6 +66,7 @@ type Cfg struct {
 	RealAlloc      bool            `json:"real_alloc,omitempty"` // UTXO records in lib/others/memory instead of the Go heap
 	TrustChecker   bool            `json:"trust_checker,omitempty"` // chain.TrustedTxChecker installed: about half of the (really) valid transactions count as verified by the pool
 	FreshDir       bool            `json:"fresh_dir,omitempty"` // the node has block files but has never written a snapshot
+	PadLimit       bool            `json:"pad_limit,omitempty"` // proof-of-work limit 0x2000ffff: a compact form whose mantissa starts with a zero byte (as the main net's 0x1d00ffff), 256 hashes per block
 	Young          int             `json:"young,omitempty"`      // >0: a chain of only this many blocks (fewer than 11 ancestors for the median time, nothing mature)
 	Blocks         []*ledger.Block `json:"blocks"`
 	Now0           int64           `json:"now0"`
@@ -123,6 +124,9 @@ func (c *Cfg) plen() int {
 }
 
 func (c *Cfg) net() int {
+	if c.PadLimit {
+		return 6
+	}
 	if c.Young > 0 {
 		n := 100 + c.Young
 		if c.Testnet {
@@ -149,6 +153,15 @@ func (c *Cfg) net() int {
 
 var prefixCache = map[int][]*ledger.Block{}
 
+// baseP is baseParams with the case's proof-of-work limit.
+func (c *Cfg) baseP() ledger.Params {
+	p := baseParams(c.Testnet)
+	if c.PadLimit {
+		p.PowLimitBits = 0x2000ffff
+	}
+	return p
+}
+
 func baseParams(testnet bool) ledger.Params {
 	return ledger.Params{PowLimitBits: 0x207fffff, GenesisTime: genesisTime, BIP34Height: 1, BIP65Height: 1, BIP66Height: 1,
 		CSVHeight: 1, SegwitHeight: 1, TaprootHeight: 1, Testnet: testnet}
@@ -161,8 +174,7 @@ func prefix(cfg *Cfg) []*ledger.Block {
 		return p
 	}
 	g := cfg.genesis()
-	testnet := cfg.Testnet
-	l := ledger.New(baseParams(testnet), g)
+	l := ledger.New(cfg.baseP(), g)
 	m := &ledger.Miner{L: l, W: ledger.NewWallet(walletSeed, walletKeys), R: hx.NewRng(0xC0FFEE)}
 	var res []*ledger.Block
 	cur := l.Genesis
@@ -241,7 +253,10 @@ func (H) Gen(prop string, seed uint64, tier string) *hx.Case {
 		SaveTargetMs: []int{0, 50, 5000}[r.Intn(3)], SkipSave: uint32(r.Intn(4)), ClientRecovery: r.Chance(0.5),
 		MaxConsec: []int{50, 500, 5000}[r.Intn(3)], SchedSeed: r.U64()}
 	cfg.P = baseParams(cfg.Testnet)
-	if prop == "C05" && r.Chance(0.1) {
+	if (prop == "C05" && r.Chance(0.12) || prop == "C06" && r.Chance(0.04)) && !cfg.Testnet {
+		cfg.PadLimit = true // hashes one byte shorter than the compact exponent says exist above and below the target
+		cfg.P = cfg.baseP()
+	} else if prop == "C05" && r.Chance(0.1) {
 		cfg.Young = r.Range(1, 9) // a chain younger than eleven blocks (every rule active from height 1)
 	} else if (prop == "C05" || prop == "C06") && r.Chance(0.25) {
 		cfg.Long = true // across the retarget boundary at height 4032 (every rule active from height 1)
@@ -399,6 +414,9 @@ func (H) Gen(prop string, seed uint64, tier string) *hx.Case {
 				mut = c05[r.Intn(len(c05))]
 				if r.Chance(0.12) {
 					mut = ledger.C05Boundary[r.Intn(len(ledger.C05Boundary))]
+				}
+				if cfg.PadLimit && r.Chance(0.35) {
+					mut = "high-hash"
 				}
 				if o.NTx == 0 {
 					o.NTx = 2
@@ -741,7 +759,7 @@ func ensureTemplate(cfg *Cfg, out *hx.Outcome) string {
 	}
 	res := simrt.Run(simrt.Config{Seed: 1, YieldP: 0, MaxConsec: 1 << 30, StepBudget: 1 << 40}, func() {
 		simrt.Sleep(time.Unix(clock, 0).Sub(time.Now()))
-		n := Boot(td, NodeOpts{P: baseParams(cfg.Testnet), Genesis: cfg.genesis(), CompressBlocks: cfg.CompressBlocks, CacheBlocks: 10, LibraryTail: cfg.Testnet4})
+		n := Boot(td, NodeOpts{P: cfg.baseP(), Genesis: cfg.genesis(), CompressBlocks: cfg.CompressBlocks, CacheBlocks: 10, LibraryTail: cfg.Testnet4})
 		for i, b := range prefix(cfg) {
 			if err, st, _ := n.Deliver(b.Bytes()); err != nil {
 				fail = fmt.Sprintf("prefix block %d refused at %s: %v", i+1, st, err)
@@ -1187,6 +1205,11 @@ func (H) Run(t *testing.T, c *hx.Case) *hx.Outcome {
 	if prop == "" {
 		prop = "C06"
 	}
+	for name, on := range map[string]bool{"variant_long_prefix": cfg.Long, "variant_young_chain": cfg.Young > 0, "variant_padded_pow_limit": cfg.PadLimit, "variant_fresh_dir": cfg.FreshDir, "variant_real_allocator": cfg.RealAlloc, "variant_testnet": cfg.Testnet} {
+		if on {
+			out.Probe(name, 1)
+		}
+	}
 	td := ensureTemplate(cfg, out)
 	root := hx.RunDir("chain", c.Seed)
 	defer os.RemoveAll(root)
@@ -1225,6 +1248,16 @@ func (H) Run(t *testing.T, c *hx.Case) *hx.Outcome {
 		r.nodes = append(r.nodes, r.l.Add(b, 1<<40))
 	}
 	r.now = cfg.Now0
+	if prop == "C17" {
+		// every address of the wallet's keys is looked at in every comparison, paid to or not (an output must not
+		// show up under an address whose script it does not carry)
+		w := ledger.NewWallet(walletSeed, walletKeys)
+		for _, kd := range []int{ledger.KP2PKH, ledger.KP2WPKH, ledger.KP2SHWPKH, ledger.KP2TR, ledger.KP2WSHTrue, ledger.KP2SHTrue} {
+			for i := 0; i < walletKeys; i++ {
+				r.everPaid[string(w.Script(kd, i))] = true
+			}
+		}
+	}
 
 	scfg := simrt.Config{Seed: cfg.SchedSeed, YieldP: cfg.YieldP, TimerP: cfg.TimerP, MaxConsec: cfg.MaxConsec, StepBudget: 30_000_000, PCT: cfg.PCT, PCTSteps: cfg.PCTSteps, ChildFirstP: cfg.ChildFirstP}
 	res := simrt.Run(scfg, func() {
